@@ -236,7 +236,7 @@ def output_traces(tier):
 
 # ---------------------------------------------------------------------------
 UCH = {"plain": "a", "digit": "2", "blank": " ", "percent": "%", "hash": "#", "question": "?", "plus": "+", "amp": "&",
-       "nonascii": "é", "astral": "\U0001F600"}
+       "nonascii": "\u00e9", "astral": "\U0001F600", "upper": "Q", "combining": "e\u0301", "compat": "\u212b", "cjkcompat": "\uf900"}
 UNRESERVED = set(b"ABCDEFGHIJKLMNOPQRSTUVWXYZabcdefghijklmnopqrstuvwxyz0123456789-._~/")
 
 
